@@ -10,17 +10,28 @@ def model(ctx, res, cfg):
     if "is violated" in out["raw"]:
         raise vlib.Broken("Pool.tla violates its own invariants: " + "\n".join(l for l in out["raw"].splitlines() if l.startswith("Error"))[:500])
     res.extra["pool_model_distinct_states"] = out["distinct"]
+    # the same model with CacheAdd inserting blindly must lose LRUConsistent: the invariant is not vacuous and the second
+    # lookup inside add() is what it rests on
+    neg = ctx.tlc("Pool", "Pool_norecheck.cfg", timeout=600, allow_violation=True)
+    if "Invariant LRUConsistent is violated" not in neg["raw"]:
+        raise vlib.Broken("Pool.tla without the second lookup in CacheAdd still satisfies LRUConsistent: the invariant is vacuous")
 
 
 def validate_events(ctx, res, d, label, prefix):
     """groups the hook events per object and lets TLC validate them against Pool.tla's rules"""
-    by_obj, cache = {}, []
+    by_obj, cache, cs = {}, [], {}
     for e in d["events"]:
         if e["ev"] in ("scanStart", "putRunner"):
             by_obj.setdefault(e["obj"], []).append(e)
         elif e["ev"] in ("cacheGet", "cacheAdd"):
             cache.append(e)
+        elif e["ev"] in ("csEnter", "csExit"):
+            cs.setdefault(e["obj"], []).append(e)
     recs, rid = [], 0
+    for obj, evs in cs.items():
+        for k in range(0, len(evs), 4000):
+            rid += 1
+            recs.append({"id": rid, "kind": "cs", "max": 0, "events": evs[k:k + 4000]})
     for obj, evs in by_obj.items():
         for k in range(0, len(evs), 4000):      # bounded recursion depth in the TLA+ fold; a cut never splits an ownership interval wrongly
             chunk = evs[k:k + 4000]
@@ -33,8 +44,13 @@ def validate_events(ctx, res, d, label, prefix):
         raise vlib.Broken("no pool events were recorded (hooks missing?)")
     # binding self-test: a foreign goroutine using a runner inside another one's interval must be rejected
     bad = None
+    if cs:
+        r = next(r for r in recs if r["kind"] == "cs")
+        ev = [dict(x) for x in r["events"][:2]]
+        intr = dict(ev[0]); intr["g"] = ev[0]["g"] + 100000
+        bad = {"id": -1, "kind": "cs", "max": 0, "events": [ev[0], intr] + ev[1:]}
     for r in recs:
-        if r["kind"] == "runner" and len(r["events"]) >= 2 and r["events"][0]["ev"] == "scanStart":
+        if bad is None and r["kind"] == "runner" and len(r["events"]) >= 2 and r["events"][0]["ev"] == "scanStart":
             ev = [dict(x) for x in r["events"][:2]]
             intr = dict(ev[0]); intr["g"] = ev[0]["g"] + 100000
             bad = {"id": -1, "kind": "runner", "max": 0, "events": [ev[0], intr] + ev[1:]}
@@ -45,7 +61,7 @@ def validate_events(ctx, res, d, label, prefix):
     vlib.write_ndjson(path, recs + [bad])
     out = ctx.tlc("Obs_Pool", "Obs.cfg", env_extra={"VERIF_OBS": path}, timeout=3000)
     bads = out["tags"].get("BAD", [])
-    if not any(b["id"] == -1 and b["rule"] == "pool.owner" for b in bads):
+    if not any(b["id"] == -1 and b["rule"] in ("pool.owner", "cache.atomic") for b in bads):
         raise vlib.Broken("binding self-test failed: an overlapping ownership interval was accepted by Obs_Pool")
     if len(out["tags"].get("REC", [])) != len(recs) + 1:
         raise vlib.Broken("TLC did not check every event record")
